@@ -142,18 +142,18 @@ func init() {
 				return ok && g.Name() == "maxPackageLength"
 			}
 			nFull, nLess, nErr := 0, 0, 0
-			for _, b := range fn.Blocks {
-				ret, ok := b.Instrs[len(b.Instrs)-1].(*ssa.Return)
-				if !ok || len(ret.Results) != 2 {
+			for _, rp := range returnPaths(fn) {
+				ret := rp.ret
+				if len(rp.vals) != 2 {
 					continue
 				}
-				st, ok := constInt(ret.Results[1])
+				st, ok := constInt(rp.vals[1])
 				if !ok {
 					r.Undecided(where, "return status", ret.Pos(), "status is not a constant")
 					continue
 				}
 				var upper, complete, incomplete bool
-				for _, f := range facts(b) {
+				for _, f := range rp.pathFacts() {
 					c, ok := normFact(f)
 					if !ok {
 						continue
@@ -172,19 +172,19 @@ func init() {
 						}
 					}
 				}
-				hs := hSets[b]
+				hs := rp.pathSet(hSets, trackValue(h))
 				switch st {
 				case fullC:
 					nFull++
 					r.Check(hs.equal(rng(4, posInf)), where, "Full: header lower bound", ret.Pos(), "header ∈ %s at the PackageFull return", "header ∈ %s at the PackageFull return; a packet is at least its own 4-byte header, and exactly 4 is legal — required [4,+inf]", hs)
 					r.Check(upper, where, "Full: header <= maxPackageLength", ret.Pos(), "dominated by header <= maxPackageLength", "the PackageFull return is not dominated by `header <= maxPackageLength` on the header itself (a packet of exactly the maximum is legal, maximum+1 is not)")
 					r.Check(complete, where, "Full: len(buf) >= header", ret.Pos(), "dominated by len(buf) >= header", "the PackageFull return is not dominated by len(buf) >= header: an incomplete packet would be handed on")
-					r.Check(ret.Results[0] == h, where, "Full: returned length is the header", ret.Pos(), "returns the header as packet length", "the packet length returned with PackageFull is not the header value")
+					r.Check(rp.vals[0] == h, where, "Full: returned length is the header", ret.Pos(), "returns the header as packet length", "the packet length returned with PackageFull is not the header value")
 				case less:
 					nLess++
 					ls := iset{}
 					if lenSets != nil {
-						ls = lenSets[b].intersect(rng(0, posInf))
+						ls = rp.pathSet(lenSets, isLenRev).intersect(rng(0, posInf))
 					}
 					short := ls.equal(rng(0, 3))
 					okIncomplete := incomplete && upper && hs.equal(rng(4, posInf))
@@ -538,3 +538,100 @@ func checkRecvLoop(r *R, fn *ssa.Function, fullC, lessC int64) {
 }
 
 var _ = types.Typ
+
+// retPath: one way the results of a function are produced — results merged by phis in (or above) the
+// returning block are split jointly into their incoming edges, and a return block that merely merges
+// several branches is split into those branches. The path is identified by the edge from -> edgeTo
+// (edgeTo nil: the return block itself).
+type retPath struct {
+	ret    *ssa.Return
+	vals   []ssa.Value
+	from   *ssa.BasicBlock
+	edgeTo *ssa.BasicBlock
+}
+
+// pathFacts: the comparisons known to hold when the results are produced along rp.
+func (rp retPath) pathFacts() []EdgeFact {
+	fs := facts(rp.from)
+	if rp.edgeTo != nil {
+		ef := edgeFactOf(rp.from, rp.edgeTo)
+		fs = append(fs, ef...)
+		fs = append(fs, impliedFacts(ef, 0, map[*ssa.Phi]bool{})...)
+	}
+	return fs
+}
+
+// pathSet: value set of the tracked value along rp (sets = valueSets(fn, v, is)).
+func (rp retPath) pathSet(sets map[*ssa.BasicBlock]iset, is tracker) iset {
+	s := sets[rp.from]
+	if rp.edgeTo != nil {
+		for si, succ := range rp.from.Succs {
+			if succ == rp.edgeTo {
+				s = s.intersect(constraintOnEdge(rp.from, si, is))
+			}
+		}
+	}
+	return s
+}
+
+func pureMerge(b *ssa.BasicBlock) bool {
+	if len(b.Preds) < 2 {
+		return false
+	}
+	for _, in := range b.Instrs[:len(b.Instrs)-1] {
+		switch in.(type) {
+		case *ssa.DebugRef:
+		default:
+			return false
+		}
+	}
+	return true
+}
+
+func returnPaths(fn *ssa.Function) []retPath {
+	var out []retPath
+	var expand func(ret *ssa.Return, vals []ssa.Value, from, edgeTo *ssa.BasicBlock, depth int)
+	expand = func(ret *ssa.Return, vals []ssa.Value, from, edgeTo *ssa.BasicBlock, depth int) {
+		// the phi block to split: the deepest block that defines a phi among vals and dominates `from`
+		var pb *ssa.BasicBlock
+		for _, v := range vals {
+			if phi, ok := v.(*ssa.Phi); ok && (phi.Block() == from || phi.Block().Dominates(from)) {
+				if pb == nil || pb.Dominates(phi.Block()) {
+					pb = phi.Block()
+				}
+			}
+		}
+		if depth >= 5 {
+			out = append(out, retPath{ret, vals, from, edgeTo})
+			return
+		}
+		if pb == nil {
+			_, endsInJump := from.Instrs[len(from.Instrs)-1].(*ssa.Jump)
+			if (edgeTo == nil || endsInJump) && pureMerge(from) {
+				for _, pred := range from.Preds {
+					expand(ret, vals, pred, from, depth+1)
+				}
+				return
+			}
+			out = append(out, retPath{ret, vals, from, edgeTo})
+			return
+		}
+		for i, pred := range pb.Preds {
+			nv := make([]ssa.Value, len(vals))
+			for j, v := range vals {
+				if phi, ok := v.(*ssa.Phi); ok && phi.Block() == pb {
+					nv[j] = phi.Edges[i]
+				} else {
+					nv[j] = v
+				}
+			}
+			expand(ret, nv, pred, pb, depth+1)
+		}
+	}
+	for _, b := range fn.Blocks {
+		if ret, ok := b.Instrs[len(b.Instrs)-1].(*ssa.Return); ok {
+			expand(ret, append([]ssa.Value{}, ret.Results...), b, nil, 0)
+		}
+	}
+	return out
+}
